@@ -224,6 +224,7 @@ func run(pc *propCfg, id, tier string, seed uint64, budget, nw int, replayFile, 
 				"VERIF_SEED="+strconv.FormatUint(seed, 10), "VERIF_WORKER="+strconv.Itoa(j.worker),
 				"VERIF_WORKERS="+strconv.Itoa(j.of), "VERIF_BUDGET_S="+strconv.Itoa(budget), "VERIF_OUT="+out)
 			env = append(env, pc.extraEnv(tier)...)
+			env = append(env, raceEnv(scratch, j.b.variant, i)...)
 			if pc.crashIsViolation {
 				env = append(env, "VERIF_BREADCRUMB="+filepath.Join(scratch, fmt.Sprintf("crumb-%d.json", i)))
 			}
@@ -335,6 +336,7 @@ func run(pc *propCfg, id, tier string, seed uint64, budget, nw int, replayFile, 
 		out := filepath.Join(scratch, "replay-"+hex.EncodeToString(h[:5])+".json")
 		env := append(os.Environ(), "VERIF_MODE=replay", "VERIF_PROP="+id, "VERIF_REPLAY="+path, "VERIF_VARIANT="+v.Variant, "VERIF_OUT="+out)
 		env = append(env, pc.extraEnv(tier)...)
+		env = append(env, raceEnv(scratch, v.Variant, 1000+nViol)...)
 		rr, err := runWorker(binOf[v.Engine+"|"+v.Variant], env, out, 5*time.Minute)
 		switch {
 		case err != nil:
@@ -419,10 +421,12 @@ func runWorker(bin string, env []string, out string, timeout time.Duration) (*ru
 	select {
 	case err := <-done:
 		if err != nil {
-			// a worker killed by its per-run watchdog leaves partial results behind
+			// a worker killed by its per-run watchdog leaves partial results behind;
+			// a worker of the race flavour ends as a failed test when the detector
+			// reported anything (the reports are in its results as violations)
 			if b, rerr := os.ReadFile(out); rerr == nil {
 				var r runner.Result
-				if json.Unmarshal(b, &r) == nil && r.Watchdog != "" {
+				if json.Unmarshal(b, &r) == nil && (r.Watchdog != "" || strings.Contains(buf.String(), "race detected during execution of test")) {
 					return &r, nil
 				}
 			}
@@ -462,6 +466,7 @@ func doReplay(pc *propCfg, id string, b build, file, scratch string) int {
 	out := filepath.Join(scratch, "replay.json")
 	env := append(os.Environ(), "VERIF_MODE=replay", "VERIF_PROP="+id, "VERIF_REPLAY="+file, "VERIF_VARIANT="+b.variant, "VERIF_OUT="+out, "VERIF_TRACE=")
 	env = append(env, pc.extraEnv("quick")...)
+	env = append(env, raceEnv(scratch, b.variant, 2000)...)
 	rr, err := runWorker(b.bin, env, out, 10*time.Minute)
 	if err != nil {
 		if pc.crashIsViolation && strings.Contains(err.Error(), "signal:") {
